@@ -20,6 +20,7 @@ from .rules import r2 as R2
 from .rules import r3 as R3
 from .rules import c09 as C9
 from .rules import r4 as R4
+from .rules import r5 as R5
 
 TRUST = ('trusted: the CPython parser (ast), the callee resolver of sa/model.py (receiver roles, '
          'unique method names), Python list/str/re semantics as encoded in the rules; ')
@@ -66,7 +67,7 @@ prop('C02',
      'DESIGN.md 3.1, 4 C02')
 
 prop('C03',
-     [MI.dt1, MI.ex2, MI.df1, PD.pd5, ST.ls2p, ST.at1, ST.ex1, RG.rg1, RG.rg2, R2.at2, SC.sc5, R3.rs1, R4.exw, R4.um1, R4.nm1, R4.st1, R4.sig1, R4.df2, R4.sbl1],
+     [MI.dt1, MI.ex2, MI.df1, PD.pd5, ST.ls2p, ST.at1, ST.ex1, RG.rg1, RG.rg2, R2.at2, SC.sc5, R3.rs1, R4.exw, R4.um1, R4.nm1, R4.st1, R4.sig1, R4.df2, R4.sbl1, R5.ex1c, SC.pd6, R5.em7],
      'no markup class reaches the default emit and comments are dropped (DT1); an argument '
      'handed back for expansion is not expanded a second time by its handler (EX2: no '
      'duplicated footnotes); text of definition files never reaches the output, including '
@@ -91,7 +92,7 @@ prop('C04',
      'DESIGN.md 3.1, 4 C04')
 
 prop('C05',
-     [MO.ac1, MO.ac2, PD.pd4, PD.pd3, R3.tk1, R3.ml8, R3.sc7, R3.ac3, R4.ab5, RX.rp1],
+     [MO.ac1, MO.ac2, PD.pd4, PD.pd3, R3.tk1, R3.ml8, R3.sc7, R3.ac3, R4.ab5, RX.rp1, R5.um2],
      'enabling invariants of the line-removal pass: every vanishing construct leaves an action '
      'token (or a paragraph token / visible text) on every path and substituted arguments are '
      'bracketed by action tokens (AC1); the skip-space set excludes paragraph tokens (AC2); a '
@@ -132,7 +133,7 @@ prop('C07',
      'DESIGN.md 3.6, 4 C07')
 
 prop('C08',
-     [EM.em1, EM.em2, EM.em3, R2.em4, AB.ab1, OK.ok1, SC.sc5, R3.rs1, R4.em5, MI.dt1, R4.em6, R4.st1],
+     [EM.em1, EM.em2, EM.em3, R2.em4, AB.ab1, OK.ok1, SC.sc5, R3.rs1, R4.em5, MI.dt1, R4.em6, R4.st1, MI.ex2, R5.pair1, R5.em7],
      'the mark is used whole (EM1), is produced only together with a diagnostic (EM2), and '
      'recovery pushes the consumed tokens back (EM3)',
      'decides the structural clauses "complete mark", "never a mark without diagnostic", '
@@ -144,7 +145,7 @@ prop('C08',
      'DESIGN.md 3.7, 4 C08')
 
 prop('C09',
-     [C9.sb1, C9.sb2, C9.sb3, C9.sb4, C9.sb5, ST.pd7, PD.pd5, MI.df1, MO.ix6, R3.ix12, MI.uk, R3.rs1, R4.sc8, R4.sb2b, ST.at1, R2.at2, R4.um1, R4.en1, R4.exw, R4.st1, R4.sbl1],
+     [C9.sb1, C9.sb2, C9.sb3, C9.sb4, C9.sb5, ST.pd7, PD.pd5, MI.df1, MO.ix6, R3.ix12, MI.uk, R3.rs1, R4.sc8, R4.sb2b, ST.at1, R2.at2, R4.um1, R4.en1, R4.exw, R4.st1, R4.sbl1, PS.ps1],
      'structural clauses only: the substitution loop replaces #k by the complete k-th argument and '
      'copies every other body token once, in order (SB1); one argument per code, defaults at the '
      'index of the code (SB2); \\newcommand / \\def register unconditionally under the literal name '
@@ -198,7 +199,7 @@ prop('C11',
      'DESIGN.md 3.8 (MT1-MT5), 4 C11')
 
 prop('C12',
-     [LS.ls1_ml, MO.ml2, R2.ml4, R2.lc2, MI.ml6, MI.lc1, ST.ex1, OK.ok4, R2.okv, R3.ml7, R3.ml8, R4.acc1, R4.sh1, R4.lt1, R4.lt2],
+     [LS.ls1_ml, MO.ml2, R2.ml4, R2.lc2, MI.ml6, MI.lc1, ST.ex1, OK.ok4, R2.okv, R3.ml7, R3.ml8, R4.acc1, R4.sh1, R4.lt1, R4.lt2, LS.ls1_shell, OK.ok2, R5.sbl2],
      'text and map of every language section stay in lock step through sectioning, joining '
      'and placeholder insertion (LS1m)',
      'decides only the lock-step clause of C12 so far',
@@ -208,7 +209,7 @@ prop('C12',
      'DESIGN.md 3.2, 4 C12')
 
 prop('C13',
-     [LS.ls1, AB.ab3, R2.okv, RX.rp1, R2.ps5, R3.rp2, R3.rx5, R4.rx6, MO.ln1, LS.ls1_ml, R4.rx7],
+     [LS.ls1, AB.ab3, R2.okv, RX.rp1, R2.ps5, R3.rp2, R3.rx5, R4.rx6, MO.ln1, LS.ls1_ml, R4.rx7, R5.ab3r],
      'equal lengths after substitution for every combination of shorter / equal / longer '
      'replacement (LS1 on substitute and replace_phrases)',
      'decides the equal-length clause; more clauses follow',
@@ -217,7 +218,7 @@ prop('C13',
      'DESIGN.md 3.2, 4 C13')
 
 prop('C14',
-     [OK.ok1, OK.ok2, OK.ok4, R2.th3, R2.okv, LS.ls1_shell, AB.ab2, MI.oks, PS.ps1, R3.ok6, R3.ml7, R3.ix13, R2.cm2, R4.ml9],
+     [OK.ok1, OK.ok2, OK.ok4, R2.th3, R2.okv, LS.ls1_shell, AB.ab2, MI.oks, PS.ps1, R3.ok6, R3.ml7, R3.ix13, R2.cm2, R4.ml9, R5.tx2],
      'the chain part offset -> total offset -> LaTeX offset -> line / column: every match of a '
      'part is shifted once by the text accumulated before it (OK2), the accumulated text and map '
      'stay in lock step incl. delimiter padding (LS1s), map entries are read through abs() and '
@@ -233,7 +234,7 @@ prop('C14',
      'DESIGN.md 3.2, 4 C14')
 
 prop('C15',
-     [TJ.tj1, TJ.tj2, TJ.tj3, AB.ab2, MI.oks, R2.okv, R3.ix13, R4.tj4, R4.tj5, R4.th8, OK.ok1, R4.en2],
+     [TJ.tj1, TJ.tj2, TJ.tj3, AB.ab2, MI.oks, R2.okv, R3.ix13, R4.tj4, R4.tj5, R4.th8, OK.ok1, R4.en2, R5.tj6, R5.tj7, R3.rx5],
      'every access to answer data is type-checked through json_get or validated at source '
      '(TJ1, interprocedural taint from JSONDecoder.decode through parameters, callbacks, '
      'tuples and attributes), decoding is guarded (TJ2), the error path is one diagnostic and '
@@ -247,7 +248,7 @@ prop('C15',
      'DESIGN.md 3.4, 3.2 (AB2), 4 C15')
 
 prop('C16',
-     [TH.th1, TH.th2, R2.th3, R2.th4, R2.cm2, MO.ln1, R3.rx5, R3.ix13, R3.cm3, R3.th6, R4.th8, OK.ok2, R4.ps6, R4.th7],
+     [TH.th1, TH.th2, R2.th3, R2.th4, R2.cm2, MO.ln1, R3.rx5, R3.ix13, R3.cm3, R3.th6, R4.th8, OK.ok2, R4.ps6, R4.th7, R5.tx2, R5.th9],
      'escaping exactly once for all sources the property names, by a three-valued taint '
      '(raw / escaped-or-markup / mixed) through concatenations, helper functions, re.sub '
      'callbacks and result tuples; protect_html checked as a table (TH1); each match '
@@ -264,7 +265,7 @@ prop('C16',
      'DESIGN.md 3.4 (TH1, TH2), 3.2 (LS2), 4 C16')
 
 prop('C18',
-     [ST.ex1, ST.wl1, ST.ls2p, MI.dt1, MI.df1, R2.cm2, SC.sc5, R3.rs1, R4.exw, R4.df2, R4.rx7, R4.sh3],
+     [ST.ex1, ST.wl1, ST.ls2p, MI.dt1, MI.df1, R2.cm2, SC.sc5, R3.rs1, R4.exw, R4.df2, R4.rx7, R4.sh3, R5.ex1c, R5.sh3b],
      'init_extractions rewrites every macro and extracts the first mandatory argument, the main '
      'text is dropped, flows are appended once in order (EX1); the work list takes one name per '
      'iteration, records it exactly as tested after the done / skip test, and adds only names '
@@ -308,7 +309,7 @@ prop('C20',
      'DESIGN.md 3.8 (CK1-CK3), 3.2 (AB4), 4 C20')
 
 prop('C17',
-     [PS.ps1, PS.ps2, PS.ps3, R2.ps5, R4.ps6],
+     [PS.ps1, PS.ps2, PS.ps3, R2.ps5, R4.ps6, R5.pair1],
      'nothing reachable from the per-document entry points writes to an object that outlives '
      'the call: whole-program field-based may-alias analysis of persistent allocation sites '
      '(module level, class level, default arguments, cache decorators) against every in-place '
